@@ -442,6 +442,19 @@ func VerifIn() {
 	L, N := verifnd.Param("L", 2), verifnd.Param("N", 2)
 	lv, lt := vValue(lc, L, 1)
 	rv, rt := vValue(rc, L, N)
+	if rc == vcMap {
+		// map values of every class, nil included: key presence must not depend on the value
+		m := map[string]any{}
+		names := []string{"k0", "k1", "k2"}
+		nk := verifnd.Int(0, N)
+		for i := 0; i < nk; i++ {
+			m[names[i]], _ = vScalar(verifnd.Int(vcNil, vcString), L)
+		}
+		rv = m
+		if lc == vcString {
+			lv = []string{"k0", "k1", "zz", ""}[verifnd.Choice(4)] // present and absent keys
+		}
+	}
 	lk, rk := verifnd.Choice(4), verifnd.Choice(4)
 	expr := &ast.InExpr{Op: "in", LHS: vOperand(ctx, in, "x", 1, lv, lt, lk), RHS: vOperand(ctx, in, "y", 2, rv, rt, rk)}
 	v, dt, err := RunInExpr(ctx, expr)
@@ -471,6 +484,9 @@ func VerifIn() {
 		r, ok := v.(bool)
 		verifnd.Assert(ok && dt == ast.Bool, "in-type")
 		_, has := rv.(map[string]any)[lv.(string)]
+		if has {
+			verifnd.Reach("map-key-present")
+		}
 		verifnd.Assert(r == has, "map-key-value")
 	case vcList:
 		verifnd.Reach("list-elem")
